@@ -24,31 +24,29 @@ struct StaticChunkMapper {
   using size_type = typename ChunkedRange<IntegerT>::size_type;
 
   size_type numThreads;
-  IntegerT chunkSize;
-  IntegerT smallChunk;
+  // Chunk sizes and offsets are kept in the wide size_type: for index types narrower than 64 bits a
+  // chunk of a range wider than the type's positive range does not fit IntegerT, and i * chunkSize
+  // would overflow it.
+  size_type chunkSize;
+  size_type smallChunk;
   size_type transIdx;
   IntegerT rangeStart;
   IntegerT rangeEnd;
 
   std::pair<IntegerT, IntegerT> operator()(size_type idx) const {
-    IntegerT start;
+    size_type offset;
     if (idx < transIdx) {
-      IntegerT i = static_cast<IntegerT>(idx);
-      start = static_cast<IntegerT>(rangeStart + static_cast<IntegerT>(i * chunkSize));
+      offset = idx * chunkSize;
     } else {
-      IntegerT ti = static_cast<IntegerT>(transIdx);
-      IntegerT ri = static_cast<IntegerT>(idx - transIdx);
-      start = static_cast<IntegerT>(
-          rangeStart + static_cast<IntegerT>(ti * chunkSize) +
-          static_cast<IntegerT>(ri * smallChunk));
+      offset = transIdx * chunkSize + (idx - transIdx) * smallChunk;
     }
+    IntegerT start = static_cast<IntegerT>(static_cast<size_type>(rangeStart) + offset);
     IntegerT end;
     if (idx + 1 == numThreads) {
       end = rangeEnd;
-    } else if (idx < transIdx) {
-      end = static_cast<IntegerT>(start + chunkSize);
     } else {
-      end = static_cast<IntegerT>(start + smallChunk);
+      end = static_cast<IntegerT>(
+          static_cast<size_type>(rangeStart) + offset + (idx < transIdx ? chunkSize : smallChunk));
     }
     return {start, end};
   }
@@ -89,12 +87,11 @@ void parallel_for_staticImpl(
             static_cast<ssize_t>(range.size()), static_cast<ssize_t>(numThreads), granularity)
       : detail::staticChunkSize(
             static_cast<ssize_t>(range.size()), static_cast<ssize_t>(numThreads));
-  IntegerT chunkSize = static_cast<IntegerT>(chunking.ceilChunkSize);
+  size_type chunkSize = static_cast<size_type>(chunking.ceilChunkSize);
 
   bool perfectlyChunked = static_cast<size_type>(chunking.transitionTaskIndex) == numThreads;
-  IntegerT chunkStep = granularity > 1 ? static_cast<IntegerT>(granularity) : IntegerT{1};
-  IntegerT smallChunk =
-      static_cast<IntegerT>(chunkSize - (perfectlyChunked ? IntegerT{0} : chunkStep));
+  size_type chunkStep = granularity > 1 ? static_cast<size_type>(granularity) : size_type{1};
+  size_type smallChunk = chunkSize - (perfectlyChunked ? size_type{0} : chunkStep);
 
   StaticChunkMapper<IntegerT> chunkRange{
       numThreads,
